@@ -338,6 +338,30 @@ func (rpc *RPC) LogValue() slog.Value {
 // returned as an oversized RPC. The caller should filter out oversized RPCs.
 func (rpc *RPC) split(limit int) iter.Seq[RPC] {
 	return func(yield func(RPC) bool) {
+		// Never yield an RPC that carries nothing: what remains once the published messages
+		// are taken out may be just an empty control message, and an element that is oversized
+		// by itself makes us yield what was collected so far, which may be nothing.
+		yieldAll := yield
+		yield = func(r RPC) bool {
+			empty := len(r.Subscriptions) == 0 && len(r.Publish) == 0 && r.Partial == nil && r.TestExtension == nil
+			if ctl := r.Control; empty && ctl != nil {
+				empty = len(ctl.Graft) == 0 && len(ctl.Prune) == 0 && ctl.Extensions == nil
+				// gossip containers without message IDs carry nothing
+				for _, ihave := range ctl.Ihave {
+					empty = empty && len(ihave.MessageIDs) == 0
+				}
+				for _, iwant := range ctl.Iwant {
+					empty = empty && len(iwant.MessageIDs) == 0
+				}
+				for _, idontwant := range ctl.Idontwant {
+					empty = empty && len(idontwant.MessageIDs) == 0
+				}
+			}
+			if empty {
+				return true
+			}
+			return yieldAll(r)
+		}
 		nextRPC := RPC{from: rpc.from}
 
 		{
@@ -393,30 +417,7 @@ func (rpc *RPC) split(limit int) iter.Seq[RPC] {
 			}
 			return
 		}
-		// We have to split the RPC into multiple parts. While doing so an element that
-		// is oversized by itself makes us yield what was collected so far, which may be
-		// nothing (or just an empty control message): never yield that.
-		yieldAll := yield
-		yield = func(r RPC) bool {
-			empty := len(r.Subscriptions) == 0 && len(r.Publish) == 0 && r.Partial == nil && r.TestExtension == nil
-			if ctl := r.Control; empty && ctl != nil {
-				empty = len(ctl.Graft) == 0 && len(ctl.Prune) == 0 && ctl.Extensions == nil
-				// gossip containers without message IDs carry nothing
-				for _, ihave := range ctl.Ihave {
-					empty = empty && len(ihave.MessageIDs) == 0
-				}
-				for _, iwant := range ctl.Iwant {
-					empty = empty && len(iwant.MessageIDs) == 0
-				}
-				for _, idontwant := range ctl.Idontwant {
-					empty = empty && len(idontwant.MessageIDs) == 0
-				}
-			}
-			if empty {
-				return true
-			}
-			return yieldAll(r)
-		}
+		// We have to split the RPC into multiple parts
 		nextRPC = RPC{from: rpc.from}
 
 		// Merge/Append Subscriptions
